@@ -46,6 +46,8 @@ class Num:
         if t[0] in ('param', 'proj'):
             nm = T.show(t)
             return self.val.get(nm)
+        if t[0] == 'adt' and t[1] in ('compact::Compact', 'compact::CompactRef') and t[2] and t[2][0][0] in ('param', 'proj'):
+            return self.val.get('compact ' + T.show(t[2][0]))
         # concrete type: its own impl
         for i in self.facts.impls_of('MaxEncodedLen'):
             pat = T.from_json(i['self_ty'])
@@ -224,6 +226,14 @@ def check_mel(out, facts, S, rule='R13.1'):
                     val['Compact<%s>' % nm] = val['compact ' + nm]
                 elif nm not in val:
                     val[nm] = fval(j + 9)
+            # T: CompactAs encodes compactly as T::As (the forwarding CompactRef<T: CompactAs> impl, C01/C07)
+            for tp in i['tpreds']:
+                if tname(tp['trait']) == 'CompactAs':
+                    a, b = 'compact ' + tp['self'], 'compact <%s as CompactAs>::As' % tp['self']
+                    if a in val or b in val:
+                        val[a] = val[b] = val.get(a, val.get(b))
+                    else:
+                        val[a] = val[b] = fval(17)
             cparams = {c: 3 + vi for c in cps}
             num = Num(facts, S, val, cparams)
             declared = num.run_fn(f)
